@@ -44,6 +44,15 @@ IMPLICIT = [
     ('p>(x+y{$#})*', lambda l: '<x></x><y>%s</y>' % l, '<p>', '</p>'),
     ('li*>s*2{$#}', lambda l: '<li><s>%s</s><s>%s</s></li>' % (l, l), '', ''),
     ('(d{$#}+e*2>b[t=$#])*', lambda l: '<d>%s</d><e><b t="%s"></b></e><e><b t="%s"></b></e>' % (l, l, l), '', ''),
+    # an odd number of placeholders per line inside an explicit repeater; the element's own text ending in a tabstop field
+    ('u>li*>s*3{$#}', lambda l: '<li><s>%s</s><s>%s</s><s>%s</s></li>' % (l, l, l), '<u>', '</u>'),
+    ('x{k ${1:f}}*', lambda l: '<x>k f%s</x>' % l, '', ''),
+    ('u>li{${0}}*', lambda l: '<li>%s</li>' % l, '<u>', '</u>'),
+    # the implicit repeater inside explicit ones, with placeholders: every outer copy holds one inner copy per line (frame
+    # repeated `times`); without a placeholder only the first run of the implicit repeater receives the text (left unspecified)
+    ('x*2>y*{$#}', lambda l: '<y>%s</y>' % l, '<x>', '</x>', 2),
+    ('t>r*3>d*{$#}', lambda l: '<d>%s</d>' % l, '<r>', '</r>', 3, '<t>', '</t>'),
+    ('(x>y*{$#})*2', lambda l: '<y>%s</y>' % l, '<x>', '</x>', 2),
 ]
 PLAIN = [
     ('x', '<x>', '</x>'),
@@ -51,7 +60,9 @@ PLAIN = [
     ('x>y+z', '<x><y></y><z>', '</z></x>'),
     ('x>y{k}', '<x><y>', '</y></x>'),
     ('(x>y)+z', '<x><y></y></x><z>', '</z>'),
+    ('x>y{k${1:f}}', '<x><y>', '</y></x>'),
 ]
+PLAIN_OWN_TEXT = {'x>y{k}': 'k', 'x>y{k${1:f}}': 'kf'}
 BOUNDS = {'quick': dict(payload=3, lines=3), 'thorough': dict(payload=4, lines=4)}
 NOFMT = {'output.format': False}
 
@@ -123,20 +134,23 @@ def check_wrap(lines):
     """-> list of (abbr, violation)"""
     bad = []
     clean = [l.strip() for l in lines if l.strip()]
-    for abbr, f, pre, post in IMPLICIT:
+    for tpl in IMPLICIT:
+        abbr, f, pre, post = tpl[:4]
+        times = tpl[4] if len(tpl) > 4 else 1
+        opre, opost = (tpl[5], tpl[6]) if len(tpl) > 6 else ('', '')
         try:
             out = expand(abbr, {'text': list(lines), 'options': dict(NOFMT)})
         except Exception as e:
             bad.append((abbr, ('wrap:exception:%s' % type(e).__name__, dict(abbr=abbr, lines=lines, error=str(e)[:120]))))
             continue
-        exp = pre + ''.join(f(l) for l in clean) + post
+        exp = opre + (pre + ''.join(f(l) for l in clean) + post) * times + opost
         if out != exp:
             bad.append((abbr, ('wrap:implicit:%s' % abbr, dict(abbr=abbr, lines=lines, expected=exp, actual=out))))
     whole = '\n'.join(lines).strip()
     if len(clean) >= 1:
         # the same lines supplied as ONE string: either reading is accepted (a single text -> one copy holding all of it; or its
         # lines -> one copy per non-blank line), nothing else (e.g. several copies that each hold the whole text)
-        for abbr, f, pre, post in IMPLICIT[:2]:
+        for abbr, f, pre, post in [t[:4] for t in IMPLICIT[:2]]:
             try:
                 out = expand(abbr, {'text': '\n'.join(lines), 'options': dict(NOFMT)})
             except Exception as e:
@@ -155,7 +169,7 @@ def check_wrap(lines):
             bad.append((abbr, ('wrap:exception:%s' % type(e).__name__, dict(abbr=abbr, lines=lines, error=str(e)[:120]))))
             continue
         got = out[len(pre):len(out) - len(post)] if out.startswith(pre) and out.endswith(post) and len(out) >= len(pre) + len(post) else None
-        want = ('k' if abbr == 'x>y{k}' else '') + whole
+        want = PLAIN_OWN_TEXT.get(abbr, '') + whole
         if got is None or norm(got) != norm(want):
             bad.append((abbr, ('wrap:plain:%s' % abbr, dict(abbr=abbr, lines=lines, expected=pre + want + post, actual=out))))
     return bad
